@@ -1,5 +1,5 @@
 """Property -> rule list. Each rule: (id, text, function(ctx, report))."""
-import rules_cmd, rules_expire, rules_conn, rules_auth, rules_tx, rules_db, rules_zset, rules_rdb, rules_aof, rules_block, rules_pubsub, rules_stream, rules_scan
+import rules_cmd, rules_expire, rules_conn, rules_auth, rules_tx, rules_db, rules_zset, rules_rdb, rules_aof, rules_block, rules_pubsub, rules_stream, rules_scan, rules_panic
 from shared import SERVER
 
 
@@ -66,6 +66,8 @@ def _c10():
         ("R-BGSAVE-FLAG", "every exit of the BGSAVE thread (return and unwind) clears bgsave_in_progress", rules_rdb.rule_bgsave_flag),
         ("R-SNAP-ONE", "per key, value and TTL come from one engine call", rules_rdb.rule_snap_one),
         ("R-RDB-COUNT", "count and elements of a shared collection come from one materialisation", rules_rdb.rule_count),
+        ("R-PANIC-FILE", "lengths and counts read from the file reach arithmetic/indexing only when bounded", rules_panic.make_taint_rule({"file"}, rules_panic.PANIC_KINDS, "file panic sinks")),
+        ("R-ALLOC-FILE", "the loader never allocates according to a length field of the file without a bound", rules_panic.make_taint_rule({"file"}, ("alloc",), "file allocation sinks")),
         ("R-LOAD-ERR", "no read-primitive result is discarded in the loader; unknown opcodes are refused; storage results while loading are not dropped", rules_rdb.rule_load_err),
     ]
 
@@ -132,6 +134,18 @@ def _c17():
     ]
 
 
+def _c06():
+    return [
+        ("R-PANIC", "client- and wire-controlled numbers reach panicking arithmetic, indexing, float->Duration and clock arithmetic only when bounded on every path (taint with direction-aware dominating comparisons)", rules_panic.make_taint_rule({"client", "wire"}, rules_panic.PANIC_KINDS, "client+wire panic sinks")),
+        ("R-ALLOC", "memory is reserved according to a client- or wire-controlled number only when bounded by what was received / is present", rules_panic.make_taint_rule({"client", "wire"}, ("alloc",), "client+wire allocation sinks")),
+        ("R-RECURSE", "client-driven recursion (RESP parser) carries a bounded depth", rules_panic.rule_recurse),
+        ("R-HANG", "the command thread never sleeps for a client-controlled time; scripts run under an execution bound", rules_panic.make_taint_rule({"client", "wire"}, ("sleep",), "client-controlled sleeps")),
+        ("R-HANG-LUA", "scripts run under an instruction hook / interrupt / memory limit", rules_panic.rule_hang),
+        ("R-LOCK-L1", "no lock is re-acquired (directly or through a call) while a guard of the same lock is held", rules_panic.rule_lock_l1),
+        ("R-ERRPROP", "a handler error never kills the connection (C05)", rules_conn.rule_errprop),
+    ]
+
+
 def _c07():
     return [
         ("R-TX-QUEUE", "in process_frame every effectful call outside the five control commands is dominated by the in_transaction/should_queue_command test and not reachable from its queued edge", rules_tx.rule_queue),
@@ -177,12 +191,21 @@ def _c19():
     ]
 
 
+def _c20():
+    return [
+        ("R-PANIC", "declared lengths from the wire reach arithmetic and slicing only when bounded", rules_panic.make_taint_rule({"wire"}, rules_panic.PANIC_KINDS, "wire panic sinks")),
+        ("R-ALLOC", "the parser never reserves memory according to a declared length it has not received", rules_panic.make_taint_rule({"wire"}, ("alloc",), "wire allocation sinks")),
+        ("R-RECURSE", "nested aggregates are parsed under a depth limit", rules_panic.rule_recurse),
+    ]
+
+
 REGISTRY = {
     "C01": _c01,
     "C02": _c02,
     "C03": _c03,
     "C04": _c04,
     "C05": _c05,
+    "C06": _c06,
     "C07": _c07,
     "C08": _c08,
     "C09": _c09,
@@ -194,6 +217,7 @@ REGISTRY = {
     "C16": _c16,
     "C17": _c17,
     "C19": _c19,
+    "C20": _c20,
     "C18": _c18,
 }
 
